@@ -151,7 +151,17 @@ type Bal struct {
 	Acct, Denom int64
 	Amt         *big.Int
 }
+type ClpParams struct {
+	Pmtp       *big.Int
+	FeeDefault *big.Int
+	FeeTokens  [][2]*big.Int
+	Lock       uint64
+	Cancel     uint64
+	Registry   [][2]int64 // denom id, permission bits
+	Whitelist  []int64
+}
 type ClpState struct {
+	Params   ClpParams
 	Balances []Bal
 	Supply   []Bal // Acct unused
 	Pools    []Pool
@@ -252,6 +262,40 @@ func (e *Env) Snapshot() ClpState {
 				End: p.DistributionPeriodEndBlock, Mod: p.DistributionPeriodMod})
 		}
 	}
+	// parameters read by the handlers
+	s.Params.Pmtp = new(big.Int).Set(k.GetPmtpRateParams(ctx).PmtpCurrentRunningRate.BigInt())
+	sf := k.GetSwapFeeParams(ctx)
+	s.Params.FeeDefault = new(big.Int).Set(sf.DefaultSwapFeeRate.BigInt())
+	for _, tp := range sf.TokenParams {
+		id, ok := e.DenomID[tp.Asset]
+		if !ok {
+			id = 60000
+		}
+		s.Params.FeeTokens = append(s.Params.FeeTokens, [2]*big.Int{big.NewInt(id), new(big.Int).Set(tp.SwapFeeRate.BigInt())})
+	}
+	s.Params.Lock = rp.LiquidityRemovalLockPeriod
+	s.Params.Cancel = rp.LiquidityRemovalCancelPeriod
+	for _, en := range e.App.TokenRegistryKeeper.GetRegistry(ctx).Entries {
+		if en == nil {
+			continue
+		}
+		id, ok := e.DenomID[en.Denom]
+		if !ok {
+			continue
+		}
+		bits := int64(0)
+		for _, pm := range en.Permissions {
+			if pm >= 1 && pm <= 5 {
+				bits |= 1 << uint(pm-1)
+			}
+		}
+		s.Params.Registry = append(s.Params.Registry, [2]int64{id, bits})
+	}
+	for _, a := range k.GetClpWhiteList(ctx) {
+		if id, ok := e.AcctID[a.String()]; ok {
+			s.Params.Whitelist = append(s.Params.Whitelist, id)
+		}
+	}
 	return s
 }
 
@@ -322,19 +366,44 @@ func (e *Enc) balStore(bs []Bal, withAcct bool) {
 
 // Clp encodes a clp state (mirror of DecClp.dClp).
 func (e *Enc) Clp(s ClpState) *Enc {
-	e.balStore(s.Balances, true)
+	// balances: account -> denom -> amount (Balances is sorted by account, then denom)
+	var accts []int64
+	byAcct := map[int64][]Bal{}
+	for _, b := range s.Balances {
+		if _, ok := byAcct[b.Acct]; !ok {
+			accts = append(accts, b.Acct)
+		}
+		byAcct[b.Acct] = append(byAcct[b.Acct], b)
+	}
+	e.Len(len(accts))
+	for _, a := range accts {
+		e.I(a)
+		e.balStore(byAcct[a], false)
+	}
 	e.balStore(s.Supply, false)
 	e.Len(len(s.Pools))
 	for _, p := range s.Pools {
 		e.I(p.Asset).Z(p.NB).Z(p.EB).Z(p.Units).Z(p.NL).Z(p.EL).Z(p.NC).Z(p.EC).Z(p.RPD).Z(p.RAE)
 	}
-	e.Len(len(s.LPs))
+	// providers: asset -> address -> record (LPs is sorted by asset, then address)
+	var assets []int64
+	byAsset := map[int64][]LP{}
 	for _, l := range s.LPs {
-		e.I(l.Asset*65536 + l.Addr).Z(l.Units).Len(len(l.Unlocks))
-		for _, u := range l.Unlocks {
-			e.I(u.Height).Z(u.Units)
+		if _, ok := byAsset[l.Asset]; !ok {
+			assets = append(assets, l.Asset)
 		}
-		e.I(l.Last)
+		byAsset[l.Asset] = append(byAsset[l.Asset], l)
+	}
+	e.Len(len(assets))
+	for _, a := range assets {
+		e.I(a).Len(len(byAsset[a]))
+		for _, l := range byAsset[a] {
+			e.I(l.Addr).Z(l.Units).Len(len(l.Unlocks))
+			for _, u := range l.Unlocks {
+				e.I(u.Height).Z(u.Units)
+			}
+			e.I(l.Last)
+		}
 	}
 	e.balStore(s.Buckets, false)
 	e.Z(s.Accu)
@@ -351,5 +420,17 @@ func (e *Enc) Clp(s ClpState) *Enc {
 		e.Z(p.Rate).U(p.Start).U(p.End).U(p.Mod)
 	}
 	e.I(s.Height)
+	e.Z(s.Params.Pmtp).Z(s.Params.FeeDefault).Len(len(s.Params.FeeTokens))
+	for _, f := range s.Params.FeeTokens {
+		e.Z(f[0]).Z(f[1])
+	}
+	e.U(s.Params.Lock).U(s.Params.Cancel).Len(len(s.Params.Registry))
+	for _, r := range s.Params.Registry {
+		e.I(r[0]).I(r[1])
+	}
+	e.Len(len(s.Params.Whitelist))
+	for _, w := range s.Params.Whitelist {
+		e.I(w)
+	}
 	return e
 }
